@@ -873,6 +873,9 @@ func main() {
 	case "recv":
 		runRecvSuite(a, out)
 		return
+	case "chan":
+		runChanSuite(a, out)
+		return
 	}
 
 	var ms *monitors
